@@ -38,7 +38,7 @@ def run(tier, seed, replay=None):
     dplib.apply(v, res, tv)
     c = res["counters"]
     if not v.violations:
-        for k in ("remote_unknown", "local_unknown", "drop_cases", "dials", "race_rounds", "race_delivered", "race_noticed", "notice_topologies"):
+        for k in ("remote_unknown", "local_unknown", "drop_cases", "dials", "race_rounds", "race_delivered", "race_noticed", "racemulti_rounds", "notice_topologies"):
             if not c.get(k):
                 raise vlib.Inconclusive("never exercised: %s" % k)
         for k in ("unknown", "publish", "socket", "close"):
@@ -57,6 +57,6 @@ def run(tier, seed, replay=None):
     }
     return v.finish("model_checking", cov, assumptions=[
         "notifications reach a socket's SubscribeUnreachable channel in the order in which the node's unreachable broker accepted them (per-socket FIFO), which is what makes the per-socket sentinel a barrier",
-        "close race: one deliverer (all senders reach the listener through one backend connection); a datagram that was waiting for the reader when Close() ran may be dropped without notice (the listener existed when it arrived: nothing is demanded); several deliverers blocked on one listener are C17's subject",
+        "close race: a datagram that was waiting for the reader when Close() ran may be dropped without notice (the listener existed when it arrived: nothing is demanded), at most one per deliverer; with one deliverer every arrival is classified from the ordered hook events, with three deliverers (two neighbours and a local sender) the round is judged by accounting (arrivals = delivered + answered + abandoned)",
         "dial threshold 5 s after the notice reached the dialling socket (measured from the unr_socket hook event); handshake idle timeout is 15 s",
     ])
